@@ -45,6 +45,7 @@ type Prog struct {
 	catchMemo      *catchAnalysis
 	unitsMemo      map[*ssa.Function][]*nodeUnit
 	wrappersMemo   []wrapperInfo
+	wipeMemo       map[string]fieldSet
 	notConsumerFn   *ssa.Function
 	notConsumerDone bool
 	entryMemo      map[*ssa.Function]*entryResult
